@@ -17,7 +17,7 @@ ASSUMPTIONS = ["separation precondition 2*delta*T + 2e-6 (two convergence errors
                "known finding tie-split-by-convergence is recognised by mechanism: reported list is a non-empty subset of the exact optimal set, "
                "every omitted action is an exact tie and its reported float rounds to a different 6-digit cell than the listed ones"]
 TIMEOUT = 1800
-TABLE = [("G-TIE", 600), ("G-TIEC", 500), ("G-ACY", 500), ("G-CYC", 500), ("G-EC", 300), ("G-DEAD", 300), ("G-LEX", 150), ("G-ACYNF", 300), ("G-CYCNF", 300), ("G-TINYB", 150), ("G-INIT0NF", 100), ("G-SLOW", 200), ("G-NEAR", 400), ("G-NEARC", 300), ("G-DUPL", 300), ("G-MIX", 500), ("G-SMALLX", 300), ("G-VSLOWR", 3), ("G-EMPTY", 300), ("G-GAP", 500), ("G-GAPLOOP", 100), ("G-DIGIT", 150)]
+TABLE = [("G-TIE", 600), ("G-TIEC", 500), ("G-ACY", 500), ("G-CYC", 500), ("G-EC", 300), ("G-DEAD", 300), ("G-LEX", 150), ("G-ACYNF", 300), ("G-CYCNF", 300), ("G-TINYB", 150), ("G-INIT0NF", 100), ("G-SLOW", 200), ("G-NEAR", 400), ("G-NEARC", 300), ("G-DUPL", 300), ("G-MIX", 500), ("G-SMALLX", 300), ("G-VSLOWR", 3), ("G-EMPTY", 300), ("G-GAP", 500), ("G-GAPLOOP", 100), ("G-DIGIT", 150), ("G-RETRY", 150)]
 
 
 def plan(tier, seed):
